@@ -58,15 +58,102 @@ def run(chk):
         chk.add_tlc("TopoImpl simulate 4 items/8 rounds", res)
         replay_hist(chk, res.out, "sim")
         os.remove(res.out)
+    sched_traces(chk)
     chk.assumptions += [
         "TLC explores the model exhaustively only inside the stated bound",
         "the harness drives TopoSort<u8> with the calls InferenceCtx::finish makes "
         "(extend, peek_all/peek_all_cyclic, remove, insert_deps)"]
 
 
+def sched_traces(chk):
+    """(ii) histories of the real inference scheduler, recorded by hir_ty::verif_trace while the front
+    end checks corpus programs and generated generic / many-definition programs, validated against
+    TopoSched.tla by TraceTopo.tla"""
+    import random
+    import capygen
+    import pipeline_common as P
+    from props import c16, c20
+    rng = random.Random(chk.seed + 26)
+    base = P.base_programs()
+    rng.shuffle(base)
+    nb = 120 if chk.tier == "quick" else 1000
+    named = [(name, files, "repo") for name, files in base[:nb]]
+    for k in range(20 if chk.tier == "quick" else 200):
+        p = c16.GGen(chk.seed * 7919 + 26000 + k).program()
+        named.append(("generic%d" % k, {"main.capy": __import__("props.c08", fromlist=["x"]).prelude() + capygen.Render().program(p)}, ""))
+    for k in range(10 if chk.tier == "quick" else 100):
+        items = c20.abstract_program(chk.seed * 31 + 26500 + k, k % 4 == 3)
+        order = list(range(len(items)))
+        rng.shuffle(order)
+        fo = {it["name"]: rng.choice(["main.capy", "lib.capy"]) if it["name"] != "main" else "main.capy" for it in items}
+        named.append(("defs%d" % k, c20.arrange(items, order, fo), ""))
+    jobs = []
+    for n, (name, files, md) in enumerate(named):
+        j = P.job("s%d" % n, files, link=False, mod_dir=md)
+        j["sched"] = True
+        j["stop_after"] = "infer"
+        jobs.append(j)
+    results = common.run_batch(jobs, chk.wd, "sched", par=12)
+    recs, idx = [], []
+    for n, r in enumerate(results):
+        evs = r.get("sched") or []
+        if not evs or not evs[0].startswith("seed"):
+            continue
+        ids = {}
+
+        def num(x):
+            if x not in ids:
+                ids[x] = len(ids) + 1
+            return ids[x]
+        out = []
+        for line in evs:
+            f = line.split("\t")
+            if f[0] == "seed":
+                out.append({"t": "seed", "s": [num(x) for x in f[1:] if x]})
+            elif f[0] == "round":
+                out.append({"t": "round", "cyc": f[1] == "true", "s": [num(x) for x in f[2:] if x]})
+            elif f[0] == "done":
+                out.append({"t": "done", "i": num(f[1])})
+            elif f[0] == "deps":
+                out.append({"t": "deps", "i": num(f[1]), "s": [num(x) for x in f[2:] if x]})
+        if len(ids) > 400:
+            continue        # (core-sized programs: the history is long; keep the validation fast)
+        recs.append({"n": max(1, len(ids)), "ev": out, "complete": "infer" in r["stages"], "names": None})
+        idx.append((n, {v: k for k, v in ids.items()}))
+    trace = os.path.join(chk.wd, "sched.ndjson")
+    common.write_ndjson(trace, [{k: v for k, v in r.items() if k != "names"} for r in recs])
+    res = common.run_tlc("TraceTopo", "TraceTopo.cfg", chk.wd, workers=1, timeout=3000, env={"TRACE": trace}, dfs=True,
+                         out_name="sched.out")
+    chk.require_tlc_ok("TraceTopo.tla on recorded scheduler histories", res)
+    seen = set()
+    for b in common.tlc_lines(res.out, "BAD"):
+        if b["idx"] in seen:
+            continue
+        seen.add(b["idx"])
+        n, names = idx[b["idx"] - 1]
+        ev = recs[b["idx"] - 1]["ev"]
+        at = b["at"] - 1
+        show = lambda e: {k: ([names[x] for x in v] if k == "s" else names[v] if k == "i" else v) for k, v in e.items()}
+        chk.violation({"kind": "scheduler-history", "why": b["why"][:40], "event": ev[at]["t"] if 0 <= at < len(ev) else "end"},
+                      {"program": named[n][0], "why": b["why"], "event_number": b["at"],
+                       "event": show(ev[at]) if 0 <= at < len(ev) else None,
+                       "ready_by_the_contract": [names[x] for x in b["ready"]], "pending": [names[x] for x in b["pending"]],
+                       "previous_events": [show(e) for e in ev[max(0, at - 6):at]], "files": named[n][1],
+                       "how": "hir_ty::verif_trace events of InferenceCtx::finish (cfg capy_verif)"})
+    chk.cov["scheduler_histories"] = len(recs)
+    chk.cov["scheduler_events"] = sum(len(r["ev"]) for r in recs)
+    chk.cov["cyclic_rounds"] = sum(1 for r in recs for e in r["ev"] if e["t"] == "round" and e["cyc"])
+    chk.cov["traces_validated_against_impl"] += len(recs)
+    if recs:
+        chk.sample({"program": named[idx[0][0]][0], "events": recs[0]["ev"][:6]})
+
+
 def replay(path):
     with open(path) as f:
         v = json.load(f)
+    if "history" not in v["detail"]:
+        print(json.dumps(v["detail"], indent=1)[:4000])
+        return 1
     tmp = path + ".in"
     with open(tmp, "w") as f:
         f.write("REPLAY " + json.dumps(v["detail"]["history"]) + "\n")
